@@ -292,24 +292,32 @@ func (x *Exec) appendOp(fr *frame, st *State, s, t Value) Value {
 			return "(+ " + a + " " + b + ")"
 		}
 		zero := c.IntLit(0).S
+		minus := func(a, b string) string {
+			if c.BV {
+				return "(bvsub " + a + " " + b + ")"
+			}
+			return "(- " + a + " " + b + ")"
+		}
 		// (1) old contents carried over
 		f1 := fmt.Sprintf("(forall ((k %s)) (! (=> (and %s %s) (= (select %s %s) (select %s %s))) :pattern ((select %s %s))))",
-			I, le(zero, "k"), lt("k", s.SLen().S), dst.S, plus(off.S, "k"), oldArr.S, plus(s.SOff().S, "k"), dst.S, plus(off.S, "k"))
-		c.AddFact(st.pc, Term{S: f1, Sort: SBool, N: 20}, "append keeps prefix")
+			I, le(zero, "k"), lt("k", s.SLen().S), dst.S, c.IxS(off, "k"), oldArr.S, c.IxS(s.SOff(), "k"), dst.S, c.IxS(off, "k"))
+		_ = plus
+		c.AddFactAbout(dst.S, st.pc, Term{S: f1, Sort: SBool, N: 20}, "append keeps prefix")
 		// (2) appended elements
 		if !tIsStr {
 			srcArr := c.Atom("asrc", sel(A, t.SRef()))
 			if nv, ok := constVal(n); ok && nv.IsInt64() && nv.Int64() <= 4 {
 				for j := int64(0); j < nv.Int64(); j++ {
-					di := c.add(c.add(off, s.SLen()), c.IntLit(j))
-					si := c.add(t.SOff(), c.IntLit(j))
+					di := c.Ix(off, c.add(s.SLen(), c.IntLit(j)))
+					si := c.Ix(t.SOff(), c.IntLit(j))
 					c.AddFact(st.pc, eq(sel(dst, di), sel(srcArr, si)), "append element")
 				}
 			} else {
 				base := c.Atom("abase", c.add(off, s.SLen()))
 				f2 := fmt.Sprintf("(forall ((j %s)) (! (=> (and %s %s) (= (select %s %s) (select %s %s))) :pattern ((select %s %s))))",
-					I, le(zero, "j"), lt("j", n.S), dst.S, plus(base.S, "j"), srcArr.S, plus(t.SOff().S, "j"), dst.S, plus(base.S, "j"))
-				c.AddFact(st.pc, Term{S: f2, Sort: SBool, N: 20}, "append elements")
+					I, le(s.SLen().S, "j"), lt("j", plus(s.SLen().S, n.S)), dst.S, c.IxS(off, "j"), srcArr.S, c.IxS(t.SOff(), minus("j", s.SLen().S)), dst.S, c.IxS(off, "j"))
+				_ = base
+				c.AddFactAbout(dst.S, st.pc, Term{S: f2, Sort: SBool, N: 20}, "append elements")
 			}
 		}
 		// (3) in place: everything outside the appended window is unchanged
@@ -317,7 +325,7 @@ func (x *Exec) appendOp(fr *frame, st *State, s, t Value) Value {
 		hi := c.Atom("awhi", c.add(lo, n))
 		f3 := fmt.Sprintf("(forall ((k %s)) (! (=> (or %s %s) (= (select %s k) (select %s k))) :pattern ((select %s k))))",
 			I, lt("k", lo.S), le(hi.S, "k"), dst.S, oldArr.S, dst.S)
-		c.AddFact(and(st.pc, fits), Term{S: f3, Sort: SBool, N: 20}, "append in place frame")
+		c.AddFactAbout(dst.S, and(st.pc, fits), Term{S: f3, Sort: SBool, N: 20}, "append in place frame")
 		st.heap[ek.key] = c.Name("H", store(A, ref, dst))
 	}
 	return c.MkSlice(s.T, ref, off, newLen, cp)
@@ -354,13 +362,13 @@ func (x *Exec) copyOp(fr *frame, st *State, d, s Value, rt types.Type) Value {
 		if !sIsStr {
 			srcArr := c.Atom("csrc", sel(A, s.SRef()))
 			f1 := fmt.Sprintf("(forall ((k %s)) (! (=> (and %s %s) (= (select %s %s) (select %s %s))) :pattern ((select %s %s))))",
-				I, pre("<=", zero, "k"), pre("<", "k", n.S), dst.S, pre("+", d.SOff().S, "k"), srcArr.S, pre("+", s.SOff().S, "k"), dst.S, pre("+", d.SOff().S, "k"))
-			c.AddFact(st.pc, Term{S: f1, Sort: SBool, N: 20}, "copy contents")
+				I, pre("<=", zero, "k"), pre("<", "k", n.S), dst.S, c.IxS(d.SOff(), "k"), srcArr.S, c.IxS(s.SOff(), "k"), dst.S, c.IxS(d.SOff(), "k"))
+			c.AddFactAbout(dst.S, st.pc, Term{S: f1, Sort: SBool, N: 20}, "copy contents")
 		}
 		hi := c.Atom("chi", c.add(d.SOff(), n))
 		f2 := fmt.Sprintf("(forall ((k %s)) (! (=> (or %s %s) (= (select %s k) (select %s k))) :pattern ((select %s k))))",
 			I, pre("<", "k", d.SOff().S), pre("<=", hi.S, "k"), dst.S, oldArr.S, dst.S)
-		c.AddFact(st.pc, Term{S: f2, Sort: SBool, N: 20}, "copy frame")
+		c.AddFactAbout(dst.S, st.pc, Term{S: f2, Sort: SBool, N: 20}, "copy frame")
 		// copying zero bytes into a nil slice does not touch the heap
 		st.heap[ek.key] = c.Name("H", ite(eq(d.SRef(), intLit(0)), A, store(A, d.SRef(), dst)))
 	}
